@@ -187,3 +187,1574 @@ def read_tag(obj):
         return {'actor': int(tag[1]), 'ver': int(tag[3]), 'version': int(tag[5]), 't': int(tag[7:])}
     except ValueError:
         return None
+
+
+# ------------------------------------------------------------------ world, actors, scheduler
+_ACTORS = {}      # thread ident -> Actor
+_WORLD = [None]   # the active world (main thread acts through its `direct` actor)
+
+
+def _cur():
+    a = _ACTORS.get(threading.get_ident())
+    if a is not None:
+        return a
+    w = _WORLD[0]
+    return w.direct if w is not None else None
+
+
+class _FakeStat(object):
+    """stat of a file outside the case directory (scanner sources): the mtime encodes
+    the actor's scanner version, so _get_versionhash differs exactly between versions."""
+
+    def __init__(self, ver):
+        self.st_mtime = 1000.0 + ver
+        self.st_mode = 0o100644
+        self.st_size = 0
+        self.st_ino = 0
+
+
+class World(object):
+    def __init__(self, case, root):
+        self.case = case
+        self.root = root
+        self.cachehome = os.path.join(root, 'xdg')
+        self.cachedir = os.path.join(self.cachehome, 'g-ir-scanner')
+        self.tmpdir = os.path.join(root, 'tmp')
+        self.srcdir = os.path.join(root, 'src')
+        self.src = os.path.join(self.srcdir, 'Dep-1.0.gir')
+        self.verfile = os.path.join(self.cachedir, '.cache-version')
+        self.entry = None
+        self.clock = T0
+        self.log = []
+        self.chunk = int(case.get('chunk', 4096))
+        self.cross = bool(case.get('cross'))
+        self.coarse = bool(case.get('coarse'))
+        self.precon = bool(case.get('preconstruct'))
+        self.n_rewrites = int(case.get('rewrites', 0))
+        self.keep = []          # dup'ed fds that pin every inode of the case (no inode number reuse)
+        self.openfds = set()
+        self.fdrole = {}
+        self.fdpath = {}
+        self.hist = {}          # ino -> [(step time, mtime)]
+        self.src_hist = [(0, SRC_MTIME0)]
+        self.rewrites = [(0, 1)]   # (step time, version)
+        self.cur_version = 1
+        self.tmpcount = 0
+        self.back = threading.Semaphore(0)
+        self.direct = Actor(self, -1, 'direct', 0)
+        self.direct.direct = True
+        self.trace = []
+
+    def role(self, path):
+        path = os.path.abspath(path)
+        if path == self.entry:
+            return 'entry'
+        if path == self.verfile:
+            return 'ver'
+        if path == self.src:
+            return 'src'
+        d = os.path.dirname(path)
+        if d == self.tmpdir:
+            return 'tmp'
+        if d == self.cachedir:
+            return 'cache'
+        if path.startswith(self.root + os.sep):
+            return 'other'
+        return None
+
+    def shared(self, role):
+        if role == 'src':
+            return self.n_rewrites > 0
+        return role in SHARED_ROLES
+
+    def fs_of(self, path):
+        return 'tmpfs' if os.path.dirname(os.path.abspath(path)) == self.tmpdir else 'home'
+
+    def pin(self, fd):
+        self.keep.append(os.dup(fd))
+
+    def stamp(self, target, t, mtime=None):
+        mtime = t if mtime is None else mtime
+        os.utime(target, (mtime, mtime))
+        stt = os.fstat(target) if isinstance(target, int) else os.stat(target)
+        self.hist.setdefault(stt.st_ino, []).append((t, mtime))
+        return stt.st_ino
+
+    def wait_back(self):
+        if not self.back.acquire(timeout=TIMEOUT):
+            raise HarnessError('C18 scheduler: an actor did not reach a yield point within %d s' % TIMEOUT)
+
+
+class Actor(object):
+    def __init__(self, world, idx, op, ver):
+        self.world = world
+        self.idx = idx
+        self.op = op
+        self.ver = ver
+        self.go = threading.Semaphore(0)
+        self.state = 'new'
+        self.killed = False
+        self.crashed = False
+        self.direct = False
+        self.granted = 0
+        self.phase = 'ctor'
+        self.cur = None
+        self.last_parse = None
+        self.error = None
+        self.worker = None
+        self.pending = None
+        self.loads = []
+        self.stores = []
+        self.ctor = {'first': None, 'last': None, 'done': False}
+
+    # -- one file-system step ------------------------------------------------
+    def step(self, kind, fn, shared=True, **info):
+        w = self.world
+        if self.killed:
+            raise Killed()
+        park = not self.direct
+        if park and w.precon and self.phase == 'ctor':
+            park = False
+        if park and w.coarse and not shared:
+            park = False
+        if park:
+            self.pending = kind
+            self.state = 'parked'
+            w.back.release()
+            self.go.acquire()
+            if self.killed:
+                raise Killed()
+            self.granted += 1
+        w.clock += 1
+        t = w.clock
+        e = {'t': t, 'a': self.idx, 'k': kind, 'phase': self.phase}
+        e.update(info)
+        w.log.append(e)
+        if self.cur is not None:
+            self.cur['steps'].append(e)
+        if self.phase == 'ctor' and not self.direct:
+            if self.ctor['first'] is None:
+                self.ctor['first'] = t
+            self.ctor['last'] = t
+        try:
+            return fn(t, e)
+        except OSError as ex:
+            e['err'] = errno.errorcode.get(ex.errno, str(ex.errno))
+            raise
+
+    # -- thread body ----------------------------------------------------------
+    def start(self):
+        self.state = 'running'
+        self.worker = _Worker.get()
+        self.worker.run(self)
+        self.world.wait_back()
+
+    def alive(self):
+        return self.state != 'done'
+
+    def _main(self):
+        _ACTORS[threading.get_ident()] = self
+        try:
+            self.script()
+        except Killed:
+            pass
+        except BaseException as e:  # noqa - recorded, judged by the oracle
+            self.error = e
+        finally:
+            _ACTORS.pop(threading.get_ident(), None)
+            self.state = 'done'
+
+    def script(self):
+        m = mods()
+        w = self.world
+        self.phase = 'ctor'
+        tr = None
+        if self.op == 'include':
+            tr = m['transformer'].Transformer(m['ast'].Namespace('Top', '1.0'))
+            cs = tr._cachestore
+        else:
+            cs = m['cachestore'].CacheStore()
+        self.ctor['done'] = True
+        self.phase = 'run'
+        self._wrap(cs)
+        if self.op == 'load':
+            cs.load(w.src)
+        elif self.op == 'store':
+            p = m['girparser'].GIRParser(types_only=True)
+            p.parse(w.src)
+            cs.store(w.src, p)
+        else:
+            tr._parse_include(w.src)
+
+    def _wrap(self, cs):
+        actor = self
+        w = self.world
+        orig_load, orig_store = cs.load, cs.store
+
+        def load(filename):
+            rec = {'a': actor.idx, 'ver': actor.ver, 'steps': [], 'obj': None, 'exc': None, 'broken': None,
+                   'ret': False, 'killed': False, 'after_ino': None}
+            actor.loads.append(rec)
+            actor.cur = rec
+            try:
+                r = orig_load(filename)
+            except Killed:
+                rec['killed'] = True
+                raise
+            except BaseException as e:  # noqa
+                rec['exc'] = e
+                raise
+            finally:
+                actor.cur = None
+                try:
+                    rec['after_ino'] = os.stat(w.entry).st_ino
+                except OSError:
+                    rec['after_ino'] = None
+            rec['ret'] = True
+            rec['obj'] = r
+            return r
+
+        def store(filename, data):
+            pv, pt = actor.last_parse if actor.last_parse else (-1, 0)
+            if getattr(data, TAG_ATTR, None) is None:
+                try:
+                    setattr(data, TAG_ATTR, make_tag(actor.idx, actor.ver, pv, pt))
+                except Exception:  # noqa
+                    pass
+            rec = {'a': actor.idx, 'ver': actor.ver, 'steps': [], 'exc': None, 'ret': False, 'killed': False,
+                   'version': pv, 'parse_t': pt}
+            actor.stores.append(rec)
+            actor.cur = rec
+            try:
+                r = orig_store(filename, data)
+            except Killed:
+                rec['killed'] = True
+                raise
+            except BaseException as e:  # noqa
+                rec['exc'] = e
+                raise
+            finally:
+                actor.cur = None
+            rec['ret'] = True
+            return r
+
+        cs.load = load
+        cs.store = store
+
+
+class _Worker(object):
+    """A pooled thread that runs one actor script at a time (thread creation is expensive on this VM)."""
+    free = []
+    count = 0
+
+    def __init__(self):
+        self.job = threading.Semaphore(0)
+        self.actor = None
+        self.done = threading.Semaphore(0)
+        _Worker.count += 1
+        self.thread = threading.Thread(target=self._loop, name='c18-worker-%d' % _Worker.count, daemon=True)
+        self.thread.start()
+
+    @classmethod
+    def get(cls):
+        return cls.free.pop() if cls.free else cls()
+
+    def run(self, actor):
+        self.actor = actor
+        self.job.release()
+
+    def _loop(self):
+        while True:
+            self.job.acquire()
+            a = self.actor
+            try:
+                a._main()
+            finally:
+                self.actor = None
+                _Worker.free.append(self)
+                self.done.release()
+                a.world.back.release()
+
+    def wait_done(self, timeout):
+        return self.done.acquire(timeout=timeout)
+
+
+class Rewriter(Actor):
+    def script(self):
+        w = self.world
+        self.phase = 'run'
+        for i in range(w.n_rewrites):
+            version = 2 + i
+
+            def fn(t, e, version=version):
+                tmp = w.src + '.new'
+                with open(tmp, 'w') as f:
+                    f.write(SRC_TEMPLATE % {'k': version})
+                fd = os.open(tmp, os.O_RDONLY)
+                w.pin(fd)
+                os.close(fd)
+                os.utime(tmp, (t, t))
+                os.replace(tmp, w.src)
+                w.src_hist.append((t, t))
+                w.rewrites.append((t, version))
+                w.cur_version = version
+                e['version'] = version
+            self.step('rewrite', fn, shared=True, role='src')
+
+
+# ------------------------------------------------------------------ proxies
+def _eacces_check(path):
+    """Model of a file owned by somebody else with mode 000 (tests run as root)."""
+    try:
+        stt = os.stat(path)
+    except OSError:
+        return
+    if not (stt.st_mode & 0o400):
+        raise PermissionError(errno.EACCES, 'Permission denied', path)
+
+
+class Reader(object):
+    def __init__(self, actor, fd, path, text, encoding):
+        self.actor = actor
+        self.fd = fd
+        self.role = actor.world.role(path)
+        self.shared = actor.world.shared(self.role)
+        self.ino = os.fstat(fd).st_ino
+        self.text = text
+        self.encoding = encoding or 'utf-8'
+        self.closed = False
+
+    def fileno(self):
+        return self.fd
+
+    def readall_steps(self):
+        a, w = self.actor, self.actor.world
+        out = []
+        while True:
+            def fn(t, e):
+                b = os.read(self.fd, w.chunk)
+                e['n'] = len(b)
+                return b
+            b = a.step('read', fn, shared=self.shared, role=self.role, ino=self.ino)
+            if not b:
+                break
+            out.append(b)
+        return b''.join(out)
+
+    def read(self, n=-1):
+        data = self.readall_steps()
+        return data.decode(self.encoding) if self.text else data
+
+    def close(self):
+        if self.closed:
+            return
+        w = self.actor.world
+
+        def fn(t, e):
+            self.closed = True
+            w.openfds.discard(self.fd)
+            os.close(self.fd)
+        self.actor.step('close', fn, shared=False, role=self.role, ino=self.ino)
+
+    def __enter__(self):
+        return self
+
+    def __exit__(self, *exc):
+        self.close()
+        return False
+
+
+class Writer(object):
+    def __init__(self, actor, fd, text, encoding):
+        self.actor = actor
+        self.fd = fd
+        w = actor.world
+        self.role = w.fdrole.get(fd, 'tmp')
+        self.shared = w.shared(self.role)
+        self.ino = os.fstat(fd).st_ino
+        self.text = text
+        self.encoding = encoding or 'utf-8'
+        self.buf = b''
+        self.closed = False
+
+    def fileno(self):
+        return self.fd
+
+    def write(self, data):
+        if self.text:
+            data = data.encode(self.encoding)
+        self.buf += bytes(data)
+        while len(self.buf) >= self.actor.world.chunk:
+            self._flush1()
+        return len(data)
+
+    def _flush1(self):
+        w = self.actor.world
+        piece = self.buf[:w.chunk]
+
+        def fn(t, e):
+            os.write(self.fd, piece)
+            w.stamp(self.fd, t)
+            e['n'] = len(piece)
+        self.actor.step('write', fn, shared=self.shared, role=self.role, ino=self.ino)
+        self.buf = self.buf[len(piece):]
+
+    def flush(self):
+        while self.buf:
+            self._flush1()
+
+    def close(self):
+        if self.closed:
+            return
+        self.flush()
+        w = self.actor.world
+
+        def fn(t, e):
+            self.closed = True
+            w.openfds.discard(self.fd)
+            os.close(self.fd)
+        self.actor.step('close', fn, shared=False, role=self.role, ino=self.ino)
+
+    def __enter__(self):
+        return self
+
+    def __exit__(self, *exc):
+        self.close()
+        return False
+
+
+def _open_read(a, path, text, encoding):
+    w = a.world
+    role = w.role(path)
+
+    def fn(t, e):
+        _eacces_check(path)
+        fd = os.open(path, os.O_RDONLY)
+        w.openfds.add(fd)
+        e['ino'] = os.fstat(fd).st_ino
+        return fd
+    fd = a.step('open', fn, shared=w.shared(role), role=role)
+    return Reader(a, fd, path, text, encoding)
+
+
+def _open_write_fd(a, path, kind='open-w', excl=False, trunc=True, mode=0o644):
+    w = a.world
+    role = w.role(path)
+
+    def fn(t, e):
+        existed = os.path.lexists(path)
+        if existed:
+            _eacces_check(path)
+        flags = os.O_WRONLY | os.O_CREAT | (os.O_TRUNC if trunc else 0) | (os.O_EXCL if excl else 0)
+        fd = os.open(path, flags, mode)
+        w.openfds.add(fd)
+        w.fdrole[fd] = role
+        if not existed:
+            w.pin(fd)
+        e['ino'] = os.fstat(fd).st_ino
+        e['created'] = not existed
+        if trunc or not existed:
+            w.stamp(fd, t)
+        return fd
+    return a.step(kind, fn, shared=w.shared(role), role=role)
+
+
+def proxy_open(path, mode='r', buffering=-1, encoding=None, *args, **kw):
+    a = _cur()
+    if a is None:
+        return open(path, mode, buffering, encoding, *args, **kw)
+    text = 'b' not in mode
+    if 'w' in mode:
+        return Writer(a, _open_write_fd(a, path), text, encoding)
+    if 'r' in mode and '+' not in mode:
+        return _open_read(a, path, text, encoding)
+    raise HarnessError('C18 proxy: open mode %r is not modelled' % mode)
+
+
+_OS_PURE = set(['fspath', 'getpid', 'getcwd', 'strerror', 'fsencode', 'fsdecode', 'getenv', 'getuid', 'geteuid',
+                'umask', 'urandom', 'getppid', 'cpu_count'])
+
+
+class OsProxy(object):
+    def __init__(self):
+        self.path = os.path
+        self.environ = os.environ
+
+    def __getattr__(self, name):
+        v = getattr(os, name)
+        if not callable(v) or name in _OS_PURE or isinstance(v, type):
+            return v
+
+        def generic(*args, **kw):
+            a = _cur()
+            if a is None:
+                return v(*args, **kw)
+            return a.step('os.' + name, lambda t, e: v(*args, **kw), shared=True)
+        return generic
+
+    def stat(self, path, *args, **kw):
+        a = _cur()
+        if a is None:
+            return os.stat(path, *args, **kw)
+        w = a.world
+        if isinstance(path, int):
+            return self.fstat(path)
+        role = w.role(path)
+        if role is None:
+            return _FakeStat(a.ver)
+
+        def fn(t, e):
+            stt = os.stat(path)
+            e['ino'] = stt.st_ino
+            e['mtime'] = stt.st_mtime
+            return stt
+        return a.step('stat', fn, shared=w.shared(role), role=role)
+
+    def fstat(self, fd):
+        a = _cur()
+        if a is None:
+            return os.fstat(fd)
+
+        def fn(t, e):
+            stt = os.fstat(fd)
+            e['ino'] = stt.st_ino
+            e['mtime'] = stt.st_mtime
+            return stt
+        return a.step('fstat', fn, shared=True, role=a.world.fdrole.get(fd))
+
+    def unlink(self, path, *args, **kw):
+        a = _cur()
+        if a is None:
+            return os.unlink(path)
+        w = a.world
+        role = w.role(path)
+
+        def fn(t, e):
+            try:
+                e['ino'] = os.lstat(path).st_ino
+            except OSError:
+                pass
+            os.unlink(path)
+        return a.step('unlink', fn, shared=w.shared(role), role=role)
+
+    remove = unlink
+
+    def listdir(self, path='.'):
+        a = _cur()
+        if a is None:
+            return os.listdir(path)
+        return a.step('listdir', lambda t, e: sorted(os.listdir(path)), shared=True, role='cache')
+
+    def fdopen(self, fd, mode='r', buffering=-1, encoding=None, *args, **kw):
+        a = _cur()
+        if a is None:
+            return os.fdopen(fd, mode, buffering, encoding, *args, **kw)
+        text = 'b' not in mode
+        if 'w' in mode or 'a' in mode:
+            return Writer(a, fd, text, encoding)
+        return Reader(a, fd, a.world.fdpath.get(fd, a.world.tmpdir + '/x'), text, encoding)
+
+    def open(self, path, flags, mode=0o777, *args, **kw):
+        a = _cur()
+        if a is None:
+            return os.open(path, flags, mode)
+        w = a.world
+        if flags & (os.O_WRONLY | os.O_RDWR):
+            fd = _open_write_fd(a, path, kind='open-w', excl=bool(flags & os.O_EXCL),
+                                trunc=bool(flags & os.O_TRUNC), mode=mode & 0o777)
+        else:
+            role = w.role(path)
+
+            def fn(t, e):
+                _eacces_check(path)
+                fd = os.open(path, os.O_RDONLY)
+                w.openfds.add(fd)
+                e['ino'] = os.fstat(fd).st_ino
+                return fd
+            fd = a.step('open', fn, shared=w.shared(role), role=role)
+        w.fdpath[fd] = path
+        return fd
+
+    def close(self, fd):
+        a = _cur()
+        if a is None:
+            return os.close(fd)
+        w = a.world
+
+        def fn(t, e):
+            w.openfds.discard(fd)
+            os.close(fd)
+        return a.step('close', fn, shared=False, role=w.fdrole.get(fd))
+
+    def write(self, fd, data):
+        a = _cur()
+        if a is None:
+            return os.write(fd, data)
+        w = a.world
+        role = w.fdrole.get(fd, 'tmp')
+
+        def fn(t, e):
+            n = os.write(fd, data)
+            w.stamp(fd, t)
+            return n
+        return a.step('write', fn, shared=w.shared(role), role=role, ino=os.fstat(fd).st_ino)
+
+    def rename(self, src, dst, *args, **kw):
+        a = _cur()
+        if a is None:
+            return os.rename(src, dst)
+        return _rename(a, src, dst)
+
+    replace = rename
+
+
+def _rename(a, src, dst):
+    w = a.world
+    role = w.role(dst)
+
+    def fn(t, e):
+        e['ino'] = os.stat(src).st_ino
+        e['src_role'] = w.role(src)
+        os.rename(src, dst)
+    return a.step('rename', fn, shared=w.shared(role) or w.shared(w.role(src)), role=role)
+
+
+class ShutilProxy(object):
+    def __getattr__(self, name):
+        return getattr(_shutil, name)
+
+    def move(self, src, dst, copy_function=None):
+        a = _cur()
+        if a is None:
+            return _shutil.move(src, dst)
+        w = a.world
+        if not (w.cross and w.fs_of(src) != w.fs_of(dst)):
+            _rename(a, src, dst)
+            return dst
+        # os.rename fails with EXDEV; shutil.move falls back to copy2 (copyfile + copystat) + unlink
+        drole = w.role(dst)
+        dshared = w.shared(drole)
+        srole = w.role(src)
+
+        def o1(t, e):
+            fd = os.open(src, os.O_RDONLY)
+            w.openfds.add(fd)
+            return fd
+        fs = a.step('copy-open-src', o1, shared=False, role=srole)
+
+        def o2(t, e):
+            existed = os.path.lexists(dst)
+            try:
+                if existed:
+                    _eacces_check(dst)
+                fd = os.open(dst, os.O_WRONLY | os.O_CREAT | os.O_TRUNC, 0o644)
+            except OSError:
+                w.openfds.discard(fs)
+                os.close(fs)
+                raise
+            w.openfds.add(fd)
+            if not existed:
+                w.pin(fd)
+            e['ino'] = os.fstat(fd).st_ino
+            e['created'] = not existed
+            w.stamp(fd, t)
+            return fd
+        fd = a.step('copy-open-dst', o2, shared=dshared, role=drole)
+        ino = os.fstat(fd).st_ino
+        while True:
+            def c(t, e):
+                b = os.read(fs, w.chunk)
+                e['n'] = len(b)
+                if b:
+                    os.write(fd, b)
+                    w.stamp(fd, t)
+                return len(b)
+            if not a.step('copy-chunk', c, shared=dshared, role=drole, ino=ino):
+                break
+
+        def cl(t, e):
+            for f in (fd, fs):
+                w.openfds.discard(f)
+                os.close(f)
+        a.step('copy-close', cl, shared=False, role=drole, ino=ino)
+
+        def cs(t, e):
+            stt = os.stat(src)
+            os.utime(dst, ns=(stt.st_atime_ns, stt.st_mtime_ns))
+            dino = os.stat(dst).st_ino
+            e['ino'] = dino
+            w.hist.setdefault(dino, []).append((t, stt.st_mtime))
+            os.chmod(dst, _stat.S_IMODE(stt.st_mode))
+        a.step('copystat', cs, shared=dshared, role=drole)
+        a.step('unlink-src', lambda t, e: os.unlink(src), shared=False, role=srole)
+        return dst
+
+
+class TempfileProxy(object):
+    def __getattr__(self, name):
+        import tempfile
+        return getattr(tempfile, name)
+
+    def mkstemp(self, suffix=None, prefix=None, dir=None, text=False):
+        a = _cur()
+        if a is None:
+            import tempfile
+            return tempfile.mkstemp(suffix, prefix, dir, text)
+        w = a.world
+        d = dir or w.tmpdir
+        role = w.role(os.path.join(d, 'x'))
+
+        def fn(t, e):
+            w.tmpcount += 1
+            path = os.path.join(d, '%s%04d%s' % (prefix or 'tmp', w.tmpcount, suffix or ''))
+            fd = os.open(path, os.O_RDWR | os.O_CREAT | os.O_EXCL, 0o600)
+            w.openfds.add(fd)
+            w.fdrole[fd] = role
+            w.fdpath[fd] = path
+            w.pin(fd)
+            e['ino'] = w.stamp(fd, t)
+            e['path'] = os.path.basename(path)
+            return fd, path
+        return a.step('mkstemp', fn, shared=w.shared(role), role=role)
+
+
+class PickleProxy(object):
+    def __getattr__(self, name):
+        return getattr(_pickle, name)
+
+    def dump(self, obj, f, *args, **kw):
+        f.write(_pickle.dumps(obj, *args, **kw))
+
+    def load(self, f, *args, **kw):
+        if not isinstance(f, Reader):
+            return _pickle.load(f, *args, **kw)
+        data = f.readall_steps()
+        try:
+            return _pickle.loads(data, *args, **kw)
+        except Exception as ex:
+            rec = f.actor.cur
+            if rec is not None:
+                rec['broken'] = {'ino': f.ino, 'exc': type(ex).__name__, 'size': len(data)}
+            raise
+
+
+def _parse_proxy(source, *args, **kw):
+    a = _cur()
+    real = mods()['real_parse']
+    if a is None or a.direct or not isinstance(source, str):
+        return real(source, *args, **kw)
+    w = a.world
+    role = w.role(source)
+
+    def fn(t, e):
+        tree = real(source, *args, **kw)
+        if role == 'src':
+            e['version'] = w.cur_version
+            a.last_parse = (w.cur_version, t)
+        return tree
+    return a.step('parse', fn, shared=w.shared(role), role=role)
+
+
+_SAVED = {}
+
+
+def install():
+    m = mods()
+    cs = m['cachestore']
+    if _SAVED:
+        raise HarnessError('C18 proxies already installed')
+    _SAVED.update({'os': cs.os, 'shutil': cs.shutil, 'tempfile': cs.tempfile, 'pickle': cs.pickle})
+    cs.os = OsProxy()
+    cs.shutil = ShutilProxy()
+    cs.tempfile = TempfileProxy()
+    cs.pickle = PickleProxy()
+    cs.open = proxy_open
+    m['girparser'].parse = _parse_proxy
+
+
+def uninstall():
+    m = mods()
+    cs = m['cachestore']
+    for k, v in _SAVED.items():
+        setattr(cs, k, v)
+    _SAVED.clear()
+    if 'open' in cs.__dict__:
+        del cs.open
+    m['girparser'].parse = m['real_parse']
+
+
+# ------------------------------------------------------------------ running one schedule
+_FP = {}          # version -> fingerprint of parse(version)   (per process)
+_PICKLES = {}     # version -> pickle of parse(version) tagged as initial entry
+_CASE_NO = [0]
+
+
+def _prepare_tables(scratch):
+    if _FP:
+        return
+    d = os.path.join(scratch, 'fp')
+    os.makedirs(d, exist_ok=True)
+    path = os.path.join(d, 'Dep-1.0.gir')
+    for k in range(N_VERSIONS):
+        p = _parse_version(k, path)
+        _FP[k] = fingerprint(p, d)
+        setattr(p, TAG_ATTR, make_tag(9, 0, k, 0))
+        _PICKLES[k] = _pickle.dumps(p)
+    if len(set(_FP.values())) != N_VERSIONS:
+        raise HarnessError('C18: source versions are not distinguishable after parsing')
+    if len(set(len(b) for b in _PICKLES.values())) != 1:
+        raise HarnessError('C18: pickles of the versions differ in length (mixing would be undetectable)')
+    _shutil.rmtree(d, ignore_errors=True)
+
+
+def _put(w, path, data, mtime, mode=None):
+    with open(path, 'wb') as f:
+        f.write(data)
+    fd = os.open(path, os.O_RDONLY)
+    w.pin(fd)
+    os.close(fd)
+    if mode is not None:
+        os.chmod(path, mode)
+    w.stamp(path, 0, mtime)
+    return os.stat(path).st_ino
+
+
+def _clear(w):
+    """The directory tree is reused between cases (rmdir/mkdir are slow here); only files are removed."""
+    for d in (w.cachedir, w.tmpdir, w.srcdir):
+        try:
+            names = os.listdir(d)
+        except FileNotFoundError:
+            os.makedirs(d)
+            continue
+        for n in names:
+            os.unlink(os.path.join(d, n))
+
+
+def _initial_state(w, case):
+    m = mods()
+    _put(w, w.src, (SRC_TEMPLATE % {'k': 1}).encode(), SRC_MTIME0)
+    cs = m['cachestore'].CacheStore.__new__(m['cachestore'].CacheStore)
+    cs._directory = w.cachedir
+    w.entry = cs._get_filename(w.src)
+    if w.role(w.entry) != 'entry' or os.path.dirname(w.entry) != w.cachedir:
+        raise HarnessError('C18: unexpected entry path %r' % w.entry)
+    if case.get('vfile', 'v0') == 'v0':
+        w.direct.ver = 0
+        h = m['cachestore']._get_versionhash()      # through the proxies: fake mtimes of scanner version 0
+        _put(w, w.verfile, h.encode('ascii'), 1)
+    init = case.get('init', 'absent')
+    w.init_ino = None
+    if init == 'valid':
+        w.init_ino = _put(w, w.entry, _PICKLES[1], 20, 0o600)
+    elif init == 'older':
+        w.init_ino = _put(w, w.entry, _PICKLES[0], 5, 0o600)
+    elif init == 'touched':
+        w.init_ino = _put(w, w.entry, _PICKLES[1], 5, 0o600)
+    elif init == 'truncated':
+        b = _PICKLES[1]
+        cut = max(0, min(len(b) - 1, len(b) * int(case.get('cut', 500)) // 1000))
+        w.init_ino = _put(w, w.entry, b[:cut], 20, 0o600)
+    elif init == 'garbage':
+        w.init_ino = _put(w, w.entry, GARBAGE[int(case.get('garbage', 0)) % len(GARBAGE)], 20, 0o600)
+    elif init == 'unreadable':
+        w.init_ino = _put(w, w.entry, _PICKLES[1], 20, 0o000)
+    elif init != 'absent':
+        raise HarnessError('C18: unknown initial state %r' % init)
+
+
+def run_schedule(case, scratch):
+    """Deterministic function of the case. Returns the history (plain data + the loaded objects)."""
+    _prepare_tables(scratch)
+    root = os.path.join(scratch, 'w%d' % _CASE_NO[0])
+    w = World(case, root)
+    _clear(w)
+    saved_env = dict((k, os.environ.get(k)) for k in ('XDG_CACHE_HOME', 'GI_SCANNER_DISABLE_CACHE'))
+    os.environ['XDG_CACHE_HOME'] = w.cachehome
+    os.environ.pop('GI_SCANNER_DISABLE_CACHE', None)
+    old_stack = threading.stack_size()
+    actors = []
+    everyone = []
+    probe = None
+    install()
+    _WORLD[0] = w
+    try:
+        threading.stack_size(512 * 1024)
+        _initial_state(w, case)
+        for i, ad in enumerate(case['actors'][:3]):
+            actors.append(Actor(w, i, ad['op'], int(ad.get('ver', 0))))
+        everyone = list(actors)
+        if w.n_rewrites > 0:
+            everyone.append(Rewriter(w, 7, 'rewrite', 0))
+        crash = case.get('crash')
+        for a in everyone:
+            a.start()
+        sched = list(case.get('sched') or [])
+        si = 0
+        crashed_effective = False
+
+        def apply_crash():
+            if not crash:
+                return False
+            hit = False
+            for a in actors:
+                if a.idx == crash['actor'] % len(actors) and a.state == 'parked' and not a.crashed \
+                        and a.granted >= crash['at']:
+                    a.crashed = True
+                    hit = True
+            return hit
+
+        def grant(a, c, n):
+            w.trace.append((c, n))
+            a.state = 'running'
+            a.go.release()
+            w.wait_back()
+            if len(w.log) > 3000:
+                raise HarnessError('C18: schedule exceeded 3000 steps')
+
+        while True:
+            crashed_effective = apply_crash() or crashed_effective
+            runnable = [a for a in everyone if a.state == 'parked' and not a.crashed]
+            if not runnable:
+                break
+            d = sched[si] if si < len(sched) else 0
+            si += 1
+            if isinstance(d, list):
+                # ['u', actor, kind]: run that actor until the step it is about to make is `kind`
+                # ['s', actor, n]:    let that actor make n steps          (actor 7 = the rewriter)
+                if int(d[1]) == 7:
+                    a = everyone[-1] if w.n_rewrites > 0 else None
+                else:
+                    a = actors[int(d[1]) % len(actors)]
+                for i in range(80 if d[0] == 'u' else int(d[2])):
+                    crashed_effective = apply_crash() or crashed_effective
+                    if a is None or a.state != 'parked' or a.crashed or (d[0] == 'u' and a.pending == d[2]):
+                        break
+                    runnable = [x for x in everyone if x.state == 'parked' and not x.crashed]
+                    grant(a, runnable.index(a), len(runnable))
+                continue
+            c = int(d) % len(runnable)
+            grant(runnable[c], c, len(runnable))
+        concurrent_end = w.clock
+        probe = Actor(w, 8, 'load', int(case.get('probe_ver', 0)))
+        probe.start()
+        while probe.state == 'parked':
+            probe.state = 'running'
+            probe.go.release()
+            w.wait_back()
+        try:
+            final = {'cache': sorted(os.listdir(w.cachedir)), 'tmp': sorted(os.listdir(w.tmpdir))}
+        except OSError:
+            final = {'cache': [], 'tmp': []}
+        h = {'world': w, 'actors': actors, 'probe': probe, 'log': w.log, 'rewrites': list(w.rewrites),
+             'hist': w.hist, 'src_hist': list(w.src_hist), 'trace': list(w.trace), 'final': final,
+             'crashed': crashed_effective, 'sched_used': min(si, len(sched)), 'concurrent_end': concurrent_end,
+             'leaked': 0}
+    finally:
+        # the verdict only uses what was recorded up to here; now let abandoned threads unwind
+        leaked = 0
+        threads = list(actors) + [x for x in everyone if x not in actors] + ([probe] if probe is not None else [])
+        for a in threads:
+            if a.worker is not None and a.alive():
+                a.killed = True
+                a.go.release()
+        for a in threads:
+            if a.worker is not None and not a.worker.wait_done(10):
+                leaked += 1       # stays parked for ever as a daemon thread; never reused
+        _WORLD[0] = None
+        uninstall()
+        threading.stack_size(old_stack)
+        for fd in list(w.openfds) + w.keep:
+            try:
+                os.close(fd)
+            except OSError:
+                pass
+        for k, v in saved_env.items():
+            if v is None:
+                os.environ.pop(k, None)
+            else:
+                os.environ[k] = v
+        if leaked:
+            _CASE_NO[0] += 1      # never share a directory with a thread that could not be reclaimed
+        else:
+            _clear(w)
+    h['leaked'] = leaked
+    return h
+
+
+# ------------------------------------------------------------------ oracle (invariant over the history)
+INF = float('inf')
+
+
+def _version_at(rewrites, t):
+    v = None
+    for rt, rv in rewrites:
+        if rt <= t:
+            v = rv
+    return v
+
+
+def _mtime_at(hist, t):
+    m = None
+    for ht, hm in hist:
+        if ht <= t:
+            m = hm
+    return m
+
+
+def _store_of(h, tag):
+    for a in h['actors']:
+        if a.idx == tag['actor']:
+            for s in a.stores:
+                if s['parse_t'] == tag['t'] and s['version'] == tag['version']:
+                    return s
+    return None
+
+
+def _install_end(s):
+    if s is None:
+        return 0
+    if not s['ret'] or not s['steps']:
+        return INF
+    return s['steps'][-1]['t']
+
+
+def _opened(L):
+    for e in L['steps']:
+        if e['k'] == 'open' and e.get('role') == 'entry':
+            return e
+    return None
+
+
+def _shape_a(L):
+    """open < replace < stat-by-path: the validity check looked at another inode than the opened one."""
+    o = _opened(L)
+    if o is None or 'ino' not in o:
+        return False
+    for e in L['steps']:
+        if e['k'] == 'stat' and e.get('role') == 'entry' and e['t'] > o['t'] and 'ino' in e:
+            return e['ino'] != o['ino']
+    return False
+
+
+def _shape_b(h, tag):
+    """parse < rewrite < store: the source was rewritten between the parse and the end of the store that
+    installed the returned entry."""
+    if tag is None or tag['actor'] == 9:
+        return False
+    s = _store_of(h, tag)
+    if s is None:
+        return False
+    end = _install_end(s)
+    return any(tag['t'] < rt < end for rt, rv in h['rewrites'])
+
+
+def _shape_torn(h, L):
+    """cross-fs copy into a live entry: the inode the load read was (re)written in place by a cross-fs copy of
+    another actor while the load had it open, or by two copies that overlapped each other."""
+    w = h['world']
+    o = _opened(L)
+    if not w.cross or o is None or 'ino' not in o:
+        return False
+    ino = o['ino']
+    t_end = L['steps'][-1]['t']
+    writers = {}
+    for e in h['log']:
+        if e['k'] in ('copy-open-dst', 'copy-chunk') and e.get('ino') == ino and e['a'] != L['a'] and e['t'] <= t_end:
+            writers.setdefault(e['a'], []).append(e['t'])
+    for a, ts in writers.items():
+        if any(t > o['t'] for t in ts):
+            return True        # written while the load had it open
+    spans = sorted((min(ts), max(ts)) for ts in writers.values())
+    for i in range(len(spans) - 1):
+        if spans[i + 1][0] < spans[i][1]:
+            return True        # two copies interleaved in the same inode
+    return False
+
+
+def _fmt_steps(h, upto=None):
+    out = []
+    for e in h['log']:
+        s = '%d:a%d.%s' % (e['t'], e['a'], e['k'])
+        if e.get('role'):
+            s += '(%s)' % e['role']
+        if e.get('err'):
+            s += '!' + e['err']
+        if 'version' in e:
+            s += '=v%d' % e['version']
+        out.append(s)
+    return ' '.join(out)[-1800:]
+
+
+def analyse_load(h, L):
+    """-> list of (clause, known-key or None, detail)."""
+    w = h['world']
+    probs = []
+    who = 'probe' if L['a'] == 8 else 'actor %d' % L['a']
+    if L['killed'] or not (L['ret'] or L['exc'] is not None):
+        return probs
+    if L['exc'] is not None:
+        ex = L['exc']
+        key = None
+        o = L['steps'][-1] if L['steps'] else None
+        if isinstance(ex, PermissionError) and o is not None and o['k'] == 'open' and o.get('role') == 'entry' \
+                and o.get('err') == 'EACCES':
+            key = KEY_EACCES
+        probs.append(('load-raised:%s' % type(ex).__name__, key,
+                      '%s: load raised %r; steps: %s' % (who, ex, _fmt_steps(h))))
+        return probs
+    # broken entry must be gone after the load that found it broken
+    if L['broken'] is not None and L['after_ino'] == L['broken']['ino']:
+        probs.append(('broken-entry-not-removed', None,
+                      '%s: unpickling failed (%s, %d bytes) but the entry is still in place after the load; steps: %s'
+                      % (who, L['broken']['exc'], L['broken']['size'], _fmt_steps(h))))
+    obj = L['obj']
+    if obj is None:
+        return probs
+    t1, t2 = L['steps'][0]['t'], L['steps'][-1]['t']
+    allowed = set([_version_at(h['rewrites'], t1)])
+    allowed.update(rv for rt, rv in h['rewrites'] if t1 < rt <= t2)
+    tag = read_tag(obj)
+    fp = fingerprint(obj, w.root)
+    k = None
+    for kk, f in _FP.items():
+        if f == fp:
+            k = kk
+    if k is None or tag is None or tag['version'] != k:
+        key = KEY_TORN if _shape_torn(h, L) else None
+        probs.append(('torn-or-mixed-object', key,
+                      '%s: load returned an object equal to no parse of any source version (tag %r, matches v%s): %s; '
+                      'steps: %s' % (who, getattr(obj, TAG_ATTR, None), k, api_summary(obj), _fmt_steps(h))))
+        return probs
+    sa = _shape_a(L)
+    if k not in allowed:
+        key = KEY_A if sa else (KEY_B if _shape_b(h, tag) else None)
+        probs.append(('stale-read', key,
+                      '%s: load (steps %d..%d) returned parse(v%d) [tag %s] but the versions current during the load '
+                      'were %s; rewrites %r; steps: %s'
+                      % (who, t1, t2, k, getattr(obj, TAG_ATTR), sorted(allowed), h['rewrites'][1:], _fmt_steps(h))))
+    # an entry older than its source is never used
+    o = _opened(L)
+    if o is not None and 'ino' in o:
+        eh = h['hist'].get(o['ino'], [])
+        times = [t1] + [t for t, _ in eh if t1 < t <= t2] + [t for t, _ in h['src_hist'] if t1 < t <= t2]
+        if all((_mtime_at(eh, t) or 0) < _mtime_at(h['src_hist'], t) for t in times):
+            probs.append(('older-entry-used', KEY_A if sa else None,
+                          '%s: the entry that was read (inode mtime history %r) was older than the source (%r) during '
+                          'the whole load %d..%d; steps: %s' % (who, eh, h['src_hist'], t1, t2, _fmt_steps(h))))
+    # after a scanner-version change no pre-existing entry is returned
+    if L['ver'] == 1 and tag['ver'] == 0:
+        firsts = [a.ctor['first'] for a in h['actors'] + [h['probe']] if a.ver == 1 and a.ctor['first'] is not None]
+        t_change = min(firsts) if firsts else None
+        inst = 0 if tag['actor'] == 9 else _install_end(_store_of(h, tag))
+        if t_change is not None and inst < t_change:
+            probs.append(('pre-existing-entry-after-version-change', None,
+                          '%s (scanner version 1, first constructed at step %d) was handed an entry installed at step '
+                          '%s by scanner version 0; steps: %s' % (who, t_change, inst, _fmt_steps(h))))
+    return probs
+
+
+def analyse_other(h):
+    """Exceptions outside load: the scanner would die with a traceback instead of emitting a GIR."""
+    probs = []
+    for a in h['actors'] + [h['probe']]:
+        if a.error is None:
+            continue
+        if any(L['exc'] is a.error for L in a.loads):
+            continue
+        ex = a.error
+        where = 'constructor' if not a.ctor['done'] else 'store'
+        key = None
+        last = None
+        for e in h['log']:
+            if e['a'] == a.idx and e.get('err'):
+                last = e
+        if where == 'store' and isinstance(ex, FileNotFoundError) and last is not None and last['k'] == 'copystat':
+            key = KEY_COPYSTAT
+        probs.append(('%s-raised:%s' % (where, type(ex).__name__), key,
+                      'actor %d: %s raised %r; steps: %s' % (a.idx, where, ex, _fmt_steps(h))))
+    return probs
+
+
+# ------------------------------------------------------------------ check_case
+_LAST = {}
+
+
+def _nontrivial(h):
+    n1 = n2 = False
+    loads = [L for a in h['actors'] for L in a.loads]
+    for L in loads:
+        o = _opened(L)
+        if o is None or 'ino' not in o:
+            continue
+        t_end = L['steps'][-1]['t']
+        for e in h['log']:
+            if e['a'] != L['a'] and e['a'] < 7 and e['k'] in ('rename', 'copy-open-dst', 'copy-chunk', 'copystat') \
+                    and e.get('role') == 'entry' and o['t'] < e['t'] < t_end:
+                n1 = True
+    for a in h['actors']:
+        for s in a.stores:
+            end = _install_end(s)
+            if end == INF:
+                end = s['steps'][-1]['t'] if s['steps'] else 0
+            if any(s['parse_t'] < rt < end for rt, rv in h['rewrites']):
+                n2 = True
+    return n1, n2
+
+
+def normalise(case):
+    if not isinstance(case, dict) or not case.get('actors'):
+        raise HarnessError('C18: malformed case %r' % (case,))
+    return case
+
+
+_FAST = [None]
+
+
+def _scratch(ctx):
+    """File creation/removal on the disk file system costs ~1 ms here; the schedules run on tmpfs when there is
+    one (VERIF_C18_SCRATCH overrides), else under ctx.mkscratch()."""
+    base = os.environ.get('VERIF_C18_SCRATCH')
+    if base is None and os.path.isdir('/dev/shm') and os.access('/dev/shm', os.W_OK):
+        base = '/dev/shm'
+    if not base:
+        return ctx.mkscratch()
+    if _FAST[0] is None:
+        d = os.path.join(base, 'verif-c18-%d-%d' % (os.getpid(), ctx.shard))
+        _shutil.rmtree(d, ignore_errors=True)
+        os.makedirs(d)
+        _FAST[0] = d
+        import atexit
+        atexit.register(_shutil.rmtree, d, True)
+    return _FAST[0]
+
+
+def check_case(case, ctx):
+    if 'e2e' in case:
+        return _check_e2e(case, ctx)
+    case = normalise(case)
+    h = run_schedule(case, _scratch(ctx))
+    _LAST['trace'] = h['trace']
+    _LAST['history'] = h
+    w = h['world']
+    # labels
+    ctx.label('init:' + case.get('init', 'absent'), 'cross-fs' if w.cross else 'same-fs',
+              'actors:%d' % len(h['actors']), 'rewrites:%d' % w.n_rewrites)
+    if h['crashed']:
+        ctx.label('crash')
+        ca = h['actors'][case['crash']['actor'] % len(h['actors'])]
+        if ca.stores and not ca.stores[-1]['ret'] and ca.stores[-1]['exc'] is None:
+            ctx.label('crash-inside-store')
+    if any(a.ver == 1 for a in h['actors']):
+        ctx.label('purge-actor')
+    if case.get('vfile', 'v0') == 'absent':
+        ctx.label('no-version-file')
+    if h['leaked']:
+        ctx.label('leaked-thread')
+    for a in h['actors'] + [h['probe']]:
+        for L in a.loads:
+            if L['ret']:
+                ctx.label('load-hit' if L['obj'] is not None else 'load-miss')
+                if L['broken'] is not None:
+                    ctx.label('broken-entry-discarded')
+        for s in a.stores:
+            if s['ret']:
+                ctx.label('store-completed')
+    if any(e['k'] == 'unlink' and e['phase'] == 'ctor' and e.get('role') == 'entry' and not e.get('err')
+           for e in h['log']):
+        ctx.label('purged-an-entry')
+    n1, n2 = _nontrivial(h)
+    if n1:
+        ctx.label('install-inside-load')
+    if n2:
+        ctx.label('rewrite-between-parse-and-store')
+    if n1 or n2:
+        ctx.note_nontrivial(case)
+        ctx.sample({'case': case, 'steps': _fmt_steps(h)[:900]}, 3)
+    # verdict
+    probs = []
+    for a in h['actors'] + [h['probe']]:
+        for L in a.loads:
+            probs.extend(analyse_load(h, L))
+    probs.extend(analyse_other(h))
+    for clause, key, detail in probs:
+        if key is not None and ctx.known(key):
+            continue
+        raise Violation(clause, detail)
+
+
+# ------------------------------------------------------------------ end-to-end clause
+NS = {'name': 'Foo', 'version': '1.0', 'id_prefixes': ['Foo'], 'sym_prefixes': ['foo']}
+_E2E_TYPES = [('GObject', 1), ('GType', 0), ('GValue', 1), ('GClosure', 1), ('GList', 1), ('GError', 2),
+              ('GQuark', 0), ('GParamFlags', 0), ('GBindingFlags', 0), ('GCallback', 0), ('GParamSpec', 1),
+              ('GHashTable', 1), ('GBytes', 1), ('GDate', 1), ('gint', 0), ('gpointer', 0), ('GInitiallyUnowned', 1),
+              ('GTypePlugin', 1), ('GPid', 0), ('GTimeSpan', 0)]
+
+
+@st.composite
+def _e2e_case(draw):
+    decls = []
+    for i in range(draw(st.integers(1, 6))):
+        params = []
+        for j in range(draw(st.integers(0, 4))):
+            t, stars = draw(st.sampled_from(_E2E_TYPES))
+            params.append(param('p%d' % j, ty(t, kind='typedef', ptrs=[0] * stars)))
+        rt, rstars = draw(st.sampled_from(_E2E_TYPES + [('void', 0)]))
+        ret = ty('void') if rt == 'void' else ty(rt, kind='typedef', ptrs=[0] * rstars)
+        decls.append({'d': 'function', 'name': 'foo_f%d' % i, 'ret': ret, 'params': params})
+    inc = draw(st.sampled_from([['GObject-2.0'], ['GObject-2.0'], ['Gio-2.0'], ['GLib-2.0', 'GModule-2.0']]))
+    return {'e2e': {'includes': inc, 'decls': decls}}
+
+
+def _check_e2e(case, ctx):
+    spec = case['e2e']
+    m = mods()
+    scratch = os.path.join(ctx.mkscratch(), 'e2e')
+    _shutil.rmtree(scratch, ignore_errors=True)
+    os.makedirs(scratch)
+    saved = dict((k, os.environ.get(k)) for k in ('XDG_CACHE_HOME', 'GI_SCANNER_DISABLE_CACHE'))
+    os.environ['XDG_CACHE_HOME'] = os.path.join(scratch, 'xdg')
+    os.environ.pop('GI_SCANNER_DISABLE_CACHE', None)
+    full = {'ns': NS, 'includes': spec['includes'], 'decls': spec['decls'], 'comments': [], 'dump': None}
+    CS = m['cachestore'].CacheStore
+    orig_load = CS.load
+    hits = {}
+
+    def counting_load(self, filename):
+        r = orig_load(self, filename)
+        hits[mode] = hits.get(mode, 0) + (r is not None)
+        return r
+    CS.load = counting_load
+    outs = {}
+    try:
+        for mode in ('cold', 'warm', 'off'):
+            try:
+                res = pipeline.run(full, os.path.join(scratch, 's'), cache=(mode != 'off'))
+            except Exception as e:
+                raise Violation(crash_clause(e), 'end-to-end %s: %r' % (mode, e))
+            outs[mode] = (res.fatal, res.gir)
+    finally:
+        CS.load = orig_load
+        for k, v in saved.items():
+            if v is None:
+                os.environ.pop(k, None)
+            else:
+                os.environ[k] = v
+        _shutil.rmtree(scratch, ignore_errors=True)
+    ctx.label('e2e')
+    if hits.get('warm', 0) > 0 and hits.get('cold', 0) == 0:
+        ctx.label('e2e-warm-hit')
+    if outs['cold'][0] is not None:
+        ctx.label('e2e-fatal')
+    for mode in ('cold', 'warm'):
+        if outs[mode] != outs['off']:
+            raise Violation('cache-changes-emitted-gir',
+                            'GIR emitted with %s cache differs from cache disabled (fatal %r vs %r, %d vs %d bytes)'
+                            % (mode, outs[mode][0], outs['off'][0], len(outs[mode][1] or b''), len(outs['off'][1] or b'')))
+
+
+# ------------------------------------------------------------------ generator
+def _expand(runs):
+    out = []
+    for a, n in runs:
+        out.extend([a] * n)
+    return out[:160]
+
+
+UNTIL_KINDS = ['rename', 'rename', 'stat', 'stat', 'read', 'read', 'open', 'unlink', 'parse', 'mkstemp', 'mkstemp',
+               'write', 'close', 'listdir', 'copy-open-dst', 'copy-open-dst', 'copy-chunk', 'copystat', 'copystat',
+               'unlink-src']
+_ACT = st.sampled_from([0, 1, 2, 0, 1, 2, 7])
+
+
+def _directed():
+    until = st.tuples(st.just('u'), _ACT, st.sampled_from(UNTIL_KINDS)).map(list)
+    steps = st.tuples(st.just('s'), _ACT, st.integers(1, 6)).map(list)
+    return st.lists(st.one_of(until, until, steps, st.integers(0, 3)), max_size=30)
+
+
+def _sched():
+    """A schedule is a list of directives: an int picks the i-th runnable actor for one step; ['u', a, kind]
+    runs actor a until the step it is about to make is `kind`; ['s', a, n] lets actor a make n steps
+    (a = 7: the rewriter). When the list is used up the first runnable actor runs."""
+    fine = st.lists(st.integers(0, 3), max_size=120)
+    runs = st.lists(st.tuples(st.integers(0, 3), st.integers(1, 9)), max_size=30).map(_expand)
+    return st.one_of(fine, runs, _directed(), _directed())
+
+
+@st.composite
+def _case(draw):
+    flavour = draw(st.sampled_from(['free', 'free', 'free', 'race', 'race', 'race', 'late', 'purge', 'midread']))
+    n = draw(st.integers(1, 3))
+    actors = [{'op': draw(st.sampled_from(['load', 'include', 'include', 'store'])),
+               'ver': draw(st.sampled_from([0, 0, 0, 1]))} for _ in range(n)]
+    init = draw(st.sampled_from(INITS))
+    rewrites = draw(st.sampled_from([0, 1, 1, 2]))
+    if flavour == 'race':
+        # a writer (actor 0) is brought to its install step, a reader (actor 1) into its load, then both advance
+        n = max(n, 2)
+        actors = (actors + [{'op': 'load', 'ver': 0}])[:n]
+        actors[0]['op'] = draw(st.sampled_from(['store', 'store', 'store', 'include']))
+        actors[1]['op'] = draw(st.sampled_from(['load', 'load', 'include']))
+        init = draw(st.sampled_from(['valid', 'older', 'touched', 'truncated', 'garbage', 'absent', 'unreadable']))
+        t = draw(st.tuples(st.sampled_from(['rename', 'copy-open-dst', 'copy-chunk', 'copystat', 'mkstemp']),
+                           st.sampled_from(['stat', 'stat', 'read', 'open', 'close', 'unlink']),
+                           st.integers(1, 5), st.integers(0, 4), st.booleans()))
+        head = [['u', 0, t[0]], ['u', 1, t[1]]]
+        if t[4]:
+            head.reverse()
+        sched = head + [['s', 0, t[2]], ['s', 1, t[3]]] + draw(_directed())
+    elif flavour == 'late':
+        # the source is rewritten while a writer sits between its parse and the end of its store
+        actors[0]['op'] = draw(st.sampled_from(['store', 'include']))
+        if actors[0]['op'] == 'include':
+            init = draw(st.sampled_from(['absent', 'older', 'touched', 'truncated', 'garbage']))
+        rewrites = max(1, rewrites)
+        t = draw(st.tuples(st.sampled_from(['stat', 'mkstemp', 'write', 'rename', 'copy-open-dst', 'copystat']),
+                           st.integers(1, 2)))
+        sched = [['u', 0, 'parse'], ['s', 0, 1], ['u', 0, t[0]], ['s', 7, t[1]]] + draw(_directed())
+    elif flavour == 'purge':
+        # a scanner of the new version is stopped inside its constructor (purge) while others go on
+        actors[0]['ver'] = 1
+        if n > 1:
+            actors[1]['ver'] = draw(st.sampled_from([0, 1, 1]))
+        init = draw(st.sampled_from(['valid', 'valid', 'older', 'truncated', 'unreadable']))
+        t = draw(st.tuples(st.sampled_from(['listdir', 'unlink', 'mkstemp', 'write', 'rename', 'copy-open-dst', 'copystat']),
+                           st.integers(0, 12), st.integers(0, 3)))
+        sched = [['u', 0, t[0]], ['s', 1, t[1]], ['s', 0, t[2]]] + draw(_directed())
+    elif flavour == 'midread':
+        # a reader has validated and partly read the entry when the source changes and a writer replaces the entry
+        n = max(n, 2)
+        actors = (actors + [{'op': 'include', 'ver': 0}])[:n]
+        actors[0] = {'op': draw(st.sampled_from(['load', 'include'])), 'ver': 0}
+        actors[1] = {'op': draw(st.sampled_from(['include', 'store'])), 'ver': 0}
+        init = 'valid'
+        rewrites = max(1, rewrites)
+        t = draw(st.tuples(st.integers(0, 3), st.sampled_from(['rename', 'copy-open-dst', 'copy-chunk', 'copystat', 'unlink-src']),
+                           st.integers(0, 4)))
+        sched = [['u', 0, 'stat'], ['u', 0, 'read'], ['s', 0, t[0]], ['s', 7, 1], ['u', 1, t[1]], ['s', 1, t[2]]] \
+            + draw(_directed())
+    else:
+        sched = draw(_sched())
+    crash = draw(st.one_of(st.none(), st.none(),
+                           st.fixed_dictionaries({'actor': st.integers(0, n - 1), 'at': st.integers(0, 28)})))
+    return {'actors': actors,
+            'rewrites': rewrites,
+            'init': init,
+            'cut': draw(st.integers(1, 999)),
+            'garbage': draw(st.integers(0, len(GARBAGE) - 1)),
+            'vfile': draw(st.sampled_from(['v0', 'v0', 'v0', 'v0', 'absent'])),
+            'cross': draw(st.booleans()),
+            'chunk': draw(st.sampled_from([600, 1200, 4096])),
+            'coarse': draw(st.booleans()),
+            'crash': crash,
+            'probe_ver': draw(st.sampled_from([0, 0, 0, 1])),
+            'sched': sched}
+
+
+# ------------------------------------------------------------------ bounded-exhaustive enumeration
+def enum_configs():
+    cfgs = []
+    pairs = []
+    for i, a in enumerate(OPS):
+        for b in OPS[i:]:
+            pairs.append((a, b))
+    for pa, pb in pairs:
+        for init in ('absent', 'valid', 'older', 'truncated'):
+            for cross in (False, True):
+                for vb in (0, 1):
+                    for rw in (0, 1):
+                        cfgs.append({'actors': [{'op': pa, 'ver': 0}, {'op': pb, 'ver': vb}], 'rewrites': rw,
+                                     'init': init, 'cut': 500, 'garbage': 0, 'vfile': 'v0', 'cross': cross,
+                                     'chunk': 1200, 'crash': None, 'probe_ver': 0, 'sched': [],
+                                     'coarse': True, 'preconstruct': vb == 0})
+    return cfgs
+
+
+def enumerate_config(ctx, base, limit=None):
+    """Stateless DFS over the scheduler's decision tree: every maximal schedule is run exactly once."""
+    stack = [[]]
+    runs = 0
+    while stack:
+        prefix = stack.pop()
+        case = dict(base)
+        case['sched'] = prefix
+        _LAST.pop('trace', None)
+        ctx.run_case(case, reraise=False)
+        runs += 1
+        trace = _LAST.get('trace')
+        if trace is None:
+            break
+        for i in range(len(prefix), len(trace)):
+            c, n = trace[i]
+            for alt in range(c + 1, n):
+                stack.append([x for x, _ in trace[:i]] + [alt])
+        if limit is not None and runs >= limit:
+            return runs, False
+    return runs, True
+
+
+def plan(tier):
+    if tier == 'quick':
+        return [{'n': 280, 'e2e': 12, 'enum': None} for i in range(16)]
+    return [{'n': 20000, 'e2e': 150, 'enum': i} for i in range(16)]
+
+
+def _pin(shard):
+    """All actor threads of a worker take turns, so one CPU per worker is enough; wake-ups across CPUs are
+    ~10x slower on this VM."""
+    try:
+        cpus = sorted(os.sched_getaffinity(0))
+        if len(cpus) > 1:
+            os.sched_setaffinity(0, set([cpus[shard % len(cpus)]]))
+    except (AttributeError, OSError):
+        pass
+
+
+def run_shard(ctx, spec):
+    _pin(ctx.shard)
+    try:
+        _run_shard(ctx, spec)
+    finally:
+        if _FAST[0]:
+            _shutil.rmtree(_FAST[0], ignore_errors=True)
+
+
+def _run_shard(ctx, spec):
+    if spec.get('e2e'):
+        ctx.hyp(_e2e_case(), spec['e2e'], name='e2e')
+    if spec.get('enum') is not None:
+        cfgs = enum_configs()
+        total = 0
+        complete = True
+        for cfg in cfgs[spec['enum']::16]:
+            n, done = enumerate_config(ctx, cfg, limit=60000)
+            total += n
+            complete = complete and done
+        ctx.extra['enumerated_interleavings'] = total
+        ctx.extra['enumerated_configs'] = len(cfgs[spec['enum']::16])
+        ctx.extra['exhaustive'] = complete
+        ctx.extra['exhaustive_part'] = ('all interleavings of two operations out of load/include/store x initial entry '
+                                        'absent/valid/older/truncated x same-fs/cross-fs x second actor old/new scanner '
+                                        'version x 0/1 source rewrite (steps on actor-private files merged with the '
+                                        'preceding step; constructors run up front unless one of them purges)')
+    ctx.hyp(_case(), spec['n'])
+
+
+def health(agg, tier):
+    lab = agg['labels']
+    n = max(1, agg['evals'] - lab.get('e2e', 0))
+    probs = []
+    for name, frac in (('crash', 0.06), ('crash-inside-store', 0.01), ('cross-fs', 0.25), ('same-fs', 0.25),
+                       ('purge-actor', 0.15), ('purged-an-entry', 0.10), ('init:truncated', 0.05),
+                       ('init:garbage', 0.04), ('init:unreadable', 0.025), ('init:older', 0.05), ('init:valid', 0.05),
+                       ('init:absent', 0.05), ('load-hit', 0.20), ('broken-entry-discarded', 0.04),
+                       ('install-inside-load', 0.01), ('rewrite-between-parse-and-store', 0.04),
+                       ('excluded_known:' + KEY_B, 0.004), ('excluded_known:' + KEY_A, 0.002)):
+        if lab.get(name, 0) < frac * n:
+            probs.append('%s in %d of %d schedules (< %.1f%%)' % (name, lab.get(name, 0), n, frac * 100))
+    if lab.get('e2e', 0) and lab.get('e2e-warm-hit', 0) < 0.9 * lab['e2e']:
+        probs.append('end-to-end warm runs hit the cache in %d of %d cases' % (lab.get('e2e-warm-hit', 0), lab['e2e']))
+    if lab.get('leaked-thread', 0) > 0.01 * n:
+        probs.append('%d actor threads could not be reclaimed' % lab['leaked-thread'])
+    return probs
